@@ -10,7 +10,8 @@ int main(int argc, char **argv)
 		vsess::dump_meta(std::cout);
 		return 0;
 	}
-	const std::string root(std::string("/tmp/SESS-") + std::to_string(getpid()));
+	const char *vrd(getenv("VERIF_RUN_DIR"));	// private per-run directory, removed by the framework
+	const std::string root(std::string(vrd && *vrd ? vrd : "/tmp") + "/SESS-" + std::to_string(getpid()));
 	vsess::SessHarness h(root);
 	std::string line;
 	while (std::getline(std::cin, line))
